@@ -1,5 +1,5 @@
 (* C11 -- readers over a live-object cache: options always re-attached, nothing fetched when warm. *)
-From SV Require Import Lib.Base C11.Model C11.Reader C11.MemReader.
+From SV Require Import Lib.Base C11.Model C11.Reader C11.MemReader C11.ReaderProofs.
 
 Section MemProofs.
   Variable md5 : N -> str.
@@ -74,8 +74,8 @@ Section MemProofs.
       destruct (mload md5 0 (m_mem s) (w_docs w)) as [f m1]. cbn in L |- *.
       rewrite (mload_warm m1 (w_docs w)) by (apply L; reflexivity). cbn.
       split; [|split; [intros _|discriminate]].
-      + induction (w_docs w); [reflexivity|assumption].
-      + induction (w_docs w) as [|a l IHl]; [reflexivity|cbn; f_equal; exact IHl].
+      + apply fetched_of_parsed.
+      + apply parsed_of_parsed.
     - unfold mdefs_open. cbn [N.eqb Pos.eqb].
       destruct (mem_get (m_mem s) (mangle (md5 (w_main w)) s_wsdl)) as [o|] eqn:G.
       + cbn. rewrite G. cbn. split; [reflexivity|split; [discriminate|auto]].
